@@ -52,7 +52,7 @@ pub const MNEMS: [Mnemonic; 16] = [
 pub struct C12;
 
 fn gen_outcome(t: &mut Tape) -> Outcome {
-    [Outcome::Unhandled, Outcome::Handled, Outcome::StopUnhandled, Outcome::StopHandled, Outcome::Fail][t.weighted(&[60, 20, 6, 6, 8])]
+    [Outcome::Unhandled, Outcome::Handled, Outcome::StopUnhandled, Outcome::StopHandled, Outcome::Fail, Outcome::StopFail][t.weighted(&[58, 20, 6, 6, 7, 3])]
 }
 
 fn build(c: &Case) -> Result<Axecutor, String> {
@@ -105,7 +105,12 @@ impl Property for C12 {
             let after = t.bool();
             let k = 1 + t.below(3);
             let outcomes = (0..k).map(|_| gen_outcome(&mut t)).collect();
-            let modify = if t.below(3) == 0 { Some((t.pick(&[0u8, 1, 2, 3, 6, 7, 8, 9]), t.val64())) } else { None };
+            let modify = match t.below(8) {
+                0 | 1 => Some((t.pick(&[0u8, 1, 2, 3, 6, 7, 8, 9]), t.val64())),
+                // redirect execution: RIP := a slot address (only meaningful from a before-hook; it must persist)
+                2 if n > 0 => Some((16u8, prog::slot_addr(BASE, t.below(n as u64) as usize))),
+                _ => None,
+            };
             hooks.push(HookSpec { mnemonic, after, outcomes, modify });
         }
         Case { prog: p, seed, hooks, register_inside, use_execute }
@@ -150,7 +155,7 @@ impl Property for C12 {
             let last = ev.last();
             if let Some(e) = last {
                 match e.outcome {
-                    Outcome::Fail => {
+                    Outcome::Fail | Outcome::StopFail => {
                         classes.push("run:hook-failed");
                         if !r.is_err() {
                             fail(&mut out, "fail|failing-hook-did-not-fail-the-run", format!("hook {} failed but execute() answered {}", e.hook, r.short()));
@@ -171,7 +176,7 @@ impl Property for C12 {
             }
             // a stop or failure must be the last event of the run
             for (i, e) in ev.iter().enumerate() {
-                if matches!(e.outcome, Outcome::Fail) && i + 1 != ev.len() {
+                if matches!(e.outcome, Outcome::Fail | Outcome::StopFail) && i + 1 != ev.len() {
                     fail(&mut out, "fail|events-after-failing-hook", format!("hook {} failed (event {}) but {} more hook events followed", e.hook, i, ev.len() - i - 1));
                     return out;
                 }
@@ -266,14 +271,19 @@ impl Property for C12 {
             let mut expect = pre.gpr;
             let mut stopped = false;
             let mut failed = false;
+            let mut rip_override: Option<u64> = None;
             for (i, e) in bev.iter().enumerate() {
-                if e.rip != ins.next_ip() || e.executed != pre.executed || e.gpr != expect || e.rflags != pre.rflags {
+                if e.rip != rip_override.unwrap_or(ins.next_ip()) || e.executed != pre.executed || e.gpr != expect || e.rflags != pre.rflags {
                     fail(&mut out, "before|hook-does-not-see-the-pre-state", format!("{} at {:#x}: before-hook {} saw rip {:#x} (next ip {:#x}), executed {} (pre {}), registers {} the pre-state", ins, rip, e.hook, e.rip, ins.next_ip(), e.executed, pre.executed, if e.gpr == expect { "equal to" } else { "different from" }));
                     return out;
                 }
                 if let Some((r, v)) = c.hooks[e.hook].modify {
-                    expect[r as usize % 16] = v;
-                    twin.reg_write_64(GPR[r as usize % 16], v).unwrap();
+                    if r == 16 {
+                        rip_override = Some(v);
+                    } else {
+                        expect[r as usize % 16] = v;
+                        twin.reg_write_64(GPR[r as usize % 16], v).unwrap();
+                    }
                 }
                 let last = i + 1 == bev.len();
                 match e.outcome {
@@ -285,7 +295,7 @@ impl Property for C12 {
                         }
                         classes.push("short-circuit");
                         stopped |= matches!(o, Outcome::StopHandled | Outcome::StopUnhandled);
-                        failed |= o == Outcome::Fail;
+                        failed |= matches!(o, Outcome::Fail | Outcome::StopFail);
                     }
                 }
             }
@@ -312,7 +322,7 @@ impl Property for C12 {
             if stopped {
                 classes.push("stop");
                 // the statement leaves open whether the instruction (and its after-hooks) still run
-                let later_failure = aev.iter().any(|e| e.outcome == Outcome::Fail) || (aev.is_empty() && r.is_err());
+                let later_failure = aev.iter().any(|e| matches!(e.outcome, Outcome::Fail | Outcome::StopFail)) || (aev.is_empty() && r.is_err());
                 if !matches!(r, Api::Ok(false)) && !later_failure {
                     fail(&mut out, "stop|step-did-not-report-finished", format!("{} at {:#x}: a before-hook stopped execution but step answered {}", ins, rip, r.short()));
                     return out;
@@ -328,7 +338,7 @@ impl Property for C12 {
             let tr = step(&mut twin);
             match (&r, &tr) {
                 (Api::Err(_), Api::Err(_)) if aev.is_empty() => break, // the instruction failed on both
-                (Api::Err(_), Api::Ok(_)) if aev.iter().any(|e| e.outcome == Outcome::Fail) => {}
+                (Api::Err(_), Api::Ok(_)) if aev.iter().any(|e| matches!(e.outcome, Outcome::Fail | Outcome::StopFail)) => {}
                 (Api::Ok(_), Api::Ok(_)) => {}
                 (Api::Err(e), Api::Ok(_)) if ins.mnemonic() == Mnemonic::Syscall && registered_b.is_empty() && registered_a.is_empty() => {
                     let _ = e;
@@ -337,7 +347,7 @@ impl Property for C12 {
                 _ => {
                     if ins.mnemonic() == Mnemonic::Syscall {
                         // the twin has no syscall hook and fails by design; take the hooked machine's word
-                        if r.is_err() && !aev.iter().any(|e| e.outcome == Outcome::Fail) {
+                        if r.is_err() && !aev.iter().any(|e| matches!(e.outcome, Outcome::Fail | Outcome::StopFail)) {
                             fail(&mut out, "step|syscall-with-hooks-failed", format!("syscall at {:#x} has hooks but step answered {}", rip, r.short()));
                             return out;
                         }
@@ -349,24 +359,43 @@ impl Property for C12 {
                     }
                 }
             }
+            if let Some(v) = rip_override {
+                if ins.flow_control() == iced_x86::FlowControl::Next {
+                    // the instruction does not load RIP itself: the hook's redirection persists
+                    twin.reg_write_64(SR::RIP, v).unwrap();
+                    classes.push("before-hook-redirects-rip");
+                } else if matches!(ins.mnemonic(), Mnemonic::Call) {
+                    break; // CALL pushes the (redirected) RIP as its return address: out of this model's scope
+                } else if twin.reg_read_64(SR::RIP).unwrap() == ins.next_ip() {
+                    // a conditional branch that is not taken leaves RIP alone: the redirection persists
+                    twin.reg_write_64(SR::RIP, v).unwrap();
+                }
+                // (a taken branch, an indirect jump or a return loads RIP itself and overrides the hook's value)
+            }
             let tpost = snap(&twin);
             // after phase
             let mut expect = tpost.gpr;
             let syscall_resync = ins.mnemonic() == Mnemonic::Syscall;
             let mut a_stopped = false;
             let mut a_failed = false;
+            let mut after_rip: Option<u64> = None;
             // the instruction itself may have ended the run (code end / top-level RET): then a stop()
             // from an after-hook changes nothing and need not end the chain
             let already_finished = matches!(tr, Api::Ok(false));
             for (i, e) in aev.iter().enumerate() {
                 let count_ok = e.executed == pre.executed + 1;
-                if !count_ok || e.gpr != expect || (!syscall_resync && e.rip != tpost.rip) || (!syscall_resync && e.rflags != tpost.rflags) {
+                if !count_ok || e.gpr != expect || (!syscall_resync && e.rip != after_rip.unwrap_or(tpost.rip)) || (!syscall_resync && e.rflags != tpost.rflags) {
                     fail(&mut out, "after|hook-does-not-see-the-post-state", format!("{} at {:#x}: after-hook {} saw executed {} (pre {}), rip {:#x} (post {:#x}), registers {} the post-state", ins, rip, e.hook, e.executed, pre.executed, e.rip, tpost.rip, if e.gpr == expect { "equal to" } else { "different from" }));
                     return out;
                 }
                 if let Some((r, v)) = c.hooks[e.hook].modify {
-                    expect[r as usize % 16] = v;
-                    twin.reg_write_64(GPR[r as usize % 16], v).unwrap();
+                    if r == 16 {
+                        twin.reg_write_64(SR::RIP, v).unwrap();
+                        after_rip = Some(v);
+                    } else {
+                        expect[r as usize % 16] = v;
+                        twin.reg_write_64(GPR[r as usize % 16], v).unwrap();
+                    }
                 }
                 let last = i + 1 == aev.len();
                 match e.outcome {
@@ -378,7 +407,7 @@ impl Property for C12 {
                         }
                         classes.push("short-circuit");
                         a_stopped |= matches!(o, Outcome::StopHandled | Outcome::StopUnhandled);
-                        a_failed |= o == Outcome::Fail;
+                        a_failed |= matches!(o, Outcome::Fail | Outcome::StopFail);
                     }
                 }
             }
@@ -442,10 +471,10 @@ impl Property for C12 {
     }
 
     fn rule(&self) -> String {
-        "cases: forward-only slot-grid programs of 1–16 instructions (incl. SYSCALL) with 1–8 scripted hooks concentrated on ≤3 mnemonics (before/after, per-invocation outcome from {unhandled, handled, stop, stop+handled, error}, optional register modification, optional registration from inside a hook) plus hooks of mnemonics that do not occur; step-wise protocol model against a hook-free twin stepped in lock-step and given the same modifications (pre-state/post-state seen by hooks, at most once, completeness, strict short-circuit, failing hook ⇒ Err, stop ⇒ finished and a further step fails, foreign hooks never fire, inner registration refused, registration after the run accepted); 1/3 of the cases use execute() for the whole-run clauses; non-trivial = ≥2 hooks on one mnemonic and ≥1 non-'unhandled' outcome; distinct by hash(case)".into()
+        "cases: forward-only slot-grid programs of 1–16 instructions (incl. SYSCALL) with 1–8 scripted hooks concentrated on ≤3 mnemonics (before/after, per-invocation outcome from {unhandled, handled, stop, stop+handled, error, stop-then-error}, optional modification of a register or of RIP (redirecting execution to another slot), optional registration from inside a hook) plus hooks of mnemonics that do not occur; step-wise protocol model against a hook-free twin stepped in lock-step and given the same modifications (pre-state/post-state seen by hooks, at most once, completeness, strict short-circuit, failing hook ⇒ Err, stop ⇒ finished and a further step fails, foreign hooks never fire, inner registration refused, registration after the run accepted); 1/3 of the cases use execute() for the whole-run clauses; non-trivial = ≥2 hooks on one mnemonic and ≥1 non-'unhandled' outcome; distinct by hash(case)".into()
     }
     fn required_classes(&self, _tier: Tier) -> Vec<String> {
-        ["mode:step", "mode:execute", "short-circuit", "stop", "hook-fails", "registration-from-inside", "run:stopped", "run:hook-failed"].iter().map(|s| s.to_string()).collect()
+        ["mode:step", "mode:execute", "short-circuit", "stop", "hook-fails", "registration-from-inside", "run:stopped", "run:hook-failed", "before-hook-redirects-rip"].iter().map(|s| s.to_string()).collect()
     }
     fn assumptions(&self) -> Vec<String> {
         vec![
